@@ -484,8 +484,11 @@ __denega(dexpr_t root)
 static void
 dexpr_simplify(dexpr_t root)
 {
-	__denega(root);
-	__dnf(root);
+/* dexpr_matches_p() evaluates the tree as it stands, the transformations
+ * into normal form (__denega(), __dnf()) got De Morgan wrong for negated
+ * junctions and double negations and left nodes shared between subtrees
+ * (double frees), so leave the tree alone */
+	(void)root;
 	return;
 }
 
@@ -604,7 +607,7 @@ dexkv_matches_p(const_dexkv_t dkv, struct dt_dt_s d)
 	return res;
 }
 
-static bool
+static __attribute__((unused)) bool
 __conj_matches_p(const_dexpr_t dex, struct dt_dt_s d)
 {
 	const_dexpr_t a;
@@ -618,7 +621,7 @@ __conj_matches_p(const_dexpr_t dex, struct dt_dt_s d)
 	return dexkv_matches_p(a->kv, d);
 }
 
-static bool
+static __attribute__((unused)) bool
 __disj_matches_p(const_dexpr_t dex, struct dt_dt_s d)
 {
 	const_dexpr_t o;
@@ -635,7 +638,27 @@ __disj_matches_p(const_dexpr_t dex, struct dt_dt_s d)
 static __attribute__((unused)) bool
 dexpr_matches_p(const_dexpr_t dex, struct dt_dt_s d)
 {
-	return __disj_matches_p(dex, d);
+/* evaluate the expression tree recursively, honouring negations */
+	bool res;
+
+	switch (dex->type) {
+	case DEX_VAL:
+		res = dexkv_matches_p(dex->kv, d);
+		break;
+	case DEX_CONJ:
+		res = dexpr_matches_p(dex->left, d) &&
+			dexpr_matches_p(dex->right, d);
+		break;
+	case DEX_DISJ:
+		res = dexpr_matches_p(dex->left, d) ||
+			dexpr_matches_p(dex->right, d);
+		break;
+	case DEX_UNK:
+	default:
+		res = false;
+		break;
+	}
+	return res != (bool)dex->nega;
 }
 
 
